@@ -415,3 +415,170 @@ def run_clause(cl, repo=None):
     if kind == "custom":
         return cl["fn"](cl, mod, cls, func)
     return [result(cl["name"], "error", "unknown clause kind %s" % kind)]
+
+
+# ----------------------------------------------------------------------------- cache-key coverage (C05)
+
+def _names(e):
+    return {n.id for n in ast.walk(e) if isinstance(n, ast.Name)}
+
+
+def _cfg_reads(e, cfg_vars):
+    """config reads inside an expression: X.get("k", ...) / X["k"] with X a declared config variable, and
+    _cfg_get(root, ["a","b"], d)  ->  set of (X, "k") / (root, "a.b")"""
+    out = set()
+    for n in ast.walk(e):
+        if isinstance(n, ast.Call) and isinstance(n.func, ast.Attribute) and n.func.attr == "get" and n.args \
+                and isinstance(n.args[0], ast.Constant) and isinstance(n.args[0].value, str) \
+                and isinstance(n.func.value, ast.Name) and n.func.value.id in cfg_vars:
+            out.add((n.func.value.id, n.args[0].value))
+        if isinstance(n, ast.Subscript) and isinstance(n.value, ast.Name) and n.value.id in cfg_vars \
+                and isinstance(n.slice, ast.Constant) and isinstance(n.slice.value, str) and isinstance(n.ctx, ast.Load):
+            out.add((n.value.id, n.slice.value))
+        if isinstance(n, ast.Call) and isinstance(n.func, ast.Name) and n.func.id == "_cfg_get" and len(n.args) >= 2 \
+                and isinstance(n.args[1], ast.List) and all(isinstance(x, ast.Constant) for x in n.args[1].elts):
+            out.add((ast.unparse(n.args[0]), ".".join(str(x.value) for x in n.args[1].elts)))
+    return out
+
+
+def check_keycover(cl, mod, cls, func):
+    """C05 key determinacy, stated over the function's own variables:
+       (1) every declared input variable of the fresh computation that is read after the cache lookup feeds the key;
+       (2) every configuration key read after the lookup is also read by an expression that feeds the key (or exempt);
+       (3) completeness: no configuration read in the region is left unclassified.
+    'feeds the key' = is in the name-level dependency closure of the key variable through the bindings that precede
+    the lookup (so equal keys imply equal values only under the trusted injectivity of stable_key/tuple/str)."""
+    key_var = cl["key_var"]
+    cfg_vars = set(cl.get("cfg_vars", []))
+    look = None
+    for n in ast.walk(func):
+        if isinstance(n, ast.Call) and isinstance(n.func, ast.Attribute) and n.func.attr == "get" \
+                and any(isinstance(a, ast.Name) and a.id == key_var for a in n.args) \
+                and ast.unparse(n.func.value) == cl["cache_expr"]:
+            look = n
+            break
+    if look is None:
+        return [result(cl["name"], "error", "anchor lost: no %s.get(..%s..) lookup" % (cl["cache_expr"], key_var))]
+    L = look.lineno
+    # bindings before the lookup
+    defs = {}
+    for n in ast.walk(func):
+        if getattr(n, "lineno", 10 ** 9) >= L:
+            continue
+        if isinstance(n, ast.Assign):
+            tg, val = n.targets, n.value
+        elif isinstance(n, (ast.AnnAssign, ast.AugAssign)) and n.value is not None:
+            tg, val = [n.target], n.value
+        elif isinstance(n, ast.Expr) and isinstance(n.value, ast.Call) and isinstance(n.value.func, ast.Attribute) \
+                and n.value.func.attr in ("update", "append", "extend", "add", "setdefault") and isinstance(n.value.func.value, ast.Name):
+            for a in list(n.value.args) + [k.value for k in n.value.keywords]:
+                defs.setdefault(n.value.func.value.id, []).append(a)
+            continue
+        else:
+            continue
+        for t in tg:
+            r = t
+            while isinstance(r, (ast.Subscript, ast.Attribute)):
+                r = r.value
+            if isinstance(r, ast.Name):
+                defs.setdefault(r.id, []).append(val)
+            elif isinstance(t, (ast.Tuple, ast.List)):
+                for x in t.elts:
+                    if isinstance(x, ast.Name):
+                        defs.setdefault(x.id, []).append(val)
+    if key_var not in defs:
+        return [result(cl["name"], "error", "anchor lost: key variable %s is not bound before the lookup" % key_var)]
+    closure, work = set(), [key_var]
+    key_cfg = set()
+    while work:
+        v = work.pop()
+        if v in closure:
+            continue
+        closure.add(v)
+        for d in defs.get(v, []):
+            key_cfg |= _cfg_reads(d, cfg_vars)
+            for nm in _names(d):
+                if nm not in closure:
+                    work.append(nm)
+    # region = statements after the lookup (or the arguments of one call, for the turn-level cache)
+    region_nodes = []
+    if cl.get("region_call"):
+        for n in ast.walk(func):
+            if isinstance(n, ast.Call) and cl["region_call"] in ast.unparse(n.func) and n.lineno >= L:
+                region_nodes.extend(n.args)
+        if not region_nodes:
+            return [result(cl["name"], "error", "anchor lost: region call %s" % cl["region_call"])]
+    else:
+        for n in ast.walk(func):
+            if isinstance(n, ast.stmt) and getattr(n, "lineno", 0) > look.end_lineno:
+                region_nodes.append(n)
+    region_names, region_cfg = set(), set()
+    for n in region_nodes:
+        for x in ast.walk(n):
+            if isinstance(x, ast.Name) and isinstance(x.ctx, ast.Load):
+                region_names.add(x.id)
+        region_cfg |= _cfg_reads(n, cfg_vars)
+    out = []
+    exempt_cfg = {}
+    for x in cl.get("exempt_cfg", []):
+        # ((var, key), reason[, (parent var, parent key)]): exempt only while the parent pair feeds the key
+        if len(x) > 2 and tuple(x[2]) not in key_cfg and tuple(x[2])[0] not in closure:
+            continue
+        exempt_cfg[tuple(x[0])] = x[1]
+    inj = set(cl.get("injective_wrappers", [])) | {"str", "tuple", "list", "dict", "sorted", "bool", "int", "float", "stable_key", "repr"}
+    rep = cl.get("represented_by", {})
+
+    def carries(e, var, seen):
+        """does expression e carry the value of `var` without losing information (identity, containers, injective wrappers)?"""
+        if isinstance(e, ast.Name):
+            if e.id == var:
+                return True
+            if e.id in seen:
+                return False
+            return any(carries(d, var, seen | {e.id}) for d in defs.get(e.id, []))
+        if isinstance(e, (ast.Tuple, ast.List, ast.Set)):
+            return any(carries(x, var, seen) for x in e.elts)
+        if isinstance(e, ast.Dict):
+            return any(carries(x, var, seen) for x in e.values if x is not None)
+        if isinstance(e, ast.Call) and isinstance(e.func, ast.Name) and e.func.id in inj:
+            return any(carries(a, var, seen) for a in e.args)
+        if isinstance(e, ast.Call) and isinstance(e.func, ast.Attribute) and e.func.attr in ("keys", "items", "copy") and not e.args:
+            return carries(e.func.value, var, seen)
+        if isinstance(e, ast.IfExp):
+            return carries(e.body, var, seen) or carries(e.orelse, var, seen)
+        if isinstance(e, ast.BoolOp):
+            return any(carries(x, var, seen) for x in e.values)
+        return False
+
+    for var, why in cl.get("inputs", []):
+        nm = "%s/key-determines:%s" % (cl["name"], var)
+        kv = rep.get(var, var)
+        if var not in region_names:
+            out.append(result(nm, "error", "anchor lost: declared input %s is not read by the fresh computation any more" % var))
+        elif var in closure and carries(ast.Name(id=key_var, ctx=ast.Load()), kv, set()):
+            out.append(result(nm, "proved", where="%s is carried into %s through containers / injective wrappers%s" % (
+                kv, key_var, "" if kv == var else " (trusted to represent %s)" % var)))
+        elif var in closure:
+            out.append(result(nm, "failed", "`%s` (%s) reaches `%s` only through a lossy operation (slice, arithmetic, method call): "
+                                            "different values of %s can produce the same cache key" % (kv, why, key_var, var), "key-determines"))
+        else:
+            out.append(result(nm, "failed", "the fresh computation reads `%s` (%s) but `%s` is not built from it: two calls that differ "
+                                            "only in %s get the same cache key" % (var, why, key_var, var), "key-determines"))
+    for var, why in cl.get("must_feed", []):
+        nm = "%s/key-determines:%s" % (cl["name"], var)
+        if var in closure:
+            out.append(result(nm, "proved", where="%s feeds %s" % (var, key_var)))
+        else:
+            out.append(result(nm, "failed", "`%s` (%s) does not feed `%s`" % (var, why, key_var), "key-determines"))
+    for (x, k) in sorted(region_cfg):
+        nm = "%s/key-determines-cfg:%s.%s" % (cl["name"], x, k)
+        if (x, k) in key_cfg:
+            out.append(result(nm, "proved", where="config %s[%r] feeds the key" % (x, k)))
+        elif (x, k) in exempt_cfg:
+            out.append(result(nm, "proved", where="exempt: " + exempt_cfg[(x, k)]))
+        else:
+            out.append(result(nm, "failed", "config value %s[%r] is read by the fresh computation but does not feed `%s`" % (x, k, key_var),
+                              "key-determines"))
+    out.append(result(cl["name"] + "/analysed", "proved", where="%d inputs, %d config reads in the region; key closure = %s" % (
+        len(cl.get("inputs", [])), len(region_cfg), sorted(closure)[:40])))
+    return out
